@@ -35,9 +35,27 @@ class Prog:
         self.tag = tag
 
 
+def s_range(*args: Any) -> Any:
+    """range() whose bounds may be symbolic: the trip count is decided by forking (limit 8)"""
+    if all(isinstance(a, int) and not isinstance(a, bool) for a in args):
+        yield from range(*args)
+        return
+    start, stop = (0, args[0]) if len(args) == 1 else (args[0], args[1])
+    if len(args) == 3 or symx.is_sym(start):
+        raise Unsupported("range with symbolic start/step")
+    i = start
+    n = 0
+    while bool(i < stop):
+        if n >= 8:
+            raise PathAbort()
+        yield i
+        i += 1
+        n += 1
+
+
 def py_namespace() -> dict:
     ident = lambda x=0: x  # noqa: E731
-    return {"i64": ident, "i32": ident, "i16": ident, "u8": ident, "__builtins__": {"bool": symx.s_bool, "int": symx.s_int, "abs": abs, "range": range, "True": True, "False": False, "ZeroDivisionError": ZeroDivisionError, "ValueError": ValueError, "OverflowError": OverflowError}}
+    return {"i64": ident, "i32": ident, "i16": ident, "u8": ident, "__builtins__": {"bool": symx.s_bool, "int": symx.s_int, "abs": abs, "range": s_range, "True": True, "False": False, "ZeroDivisionError": ZeroDivisionError, "ValueError": ValueError, "OverflowError": OverflowError}}
 
 
 def check_program(p: Prog, fn_ir: Any, found: list, stats: dict, timeout_ms: int = 30000, max_paths: int = 3000) -> Ctx:
@@ -209,8 +227,8 @@ def one_op_programs() -> list[Prog]:
     return out
 
 
-def gen_programs(seed: int, count: int) -> list[Prog]:
-    rng = random.Random(seed)
+def gen_programs(seed: int, count: int, loops: bool = False) -> list[Prog]:
+    rng = random.Random(seed + (7919 if loops else 0))
     out: list[Prog] = []
 
     def expr(d: int, vs: list[str]) -> str:
@@ -247,6 +265,25 @@ def gen_programs(seed: int, count: int) -> list[Prog]:
                 locs.append(nm)
             elif r < 0.75 and len(locs) > len(vs):
                 lines.append(f"{ind}{rng.choice(locs[len(vs):])} {rng.choice(['+=', '-=', '*='])} {expr(max(d - 1, 0), locs)}")
+            elif d > 0 and r < 0.87 and loops:
+                k = rng.random()
+                nm = f"t{len(locs)}"
+                lines.append(f"{ind}{nm} = {expr(0, locs)}")
+                locs.append(nm)
+                iv = f"i{len(locs)}"
+                if k < 0.4:
+                    lines.append(f"{ind}for {iv} in range({rng.choice([1, 2, 3])}):")
+                elif k < 0.7:
+                    lines.append(f"{ind}for {iv} in range({rng.choice(locs)} % {rng.choice([2, 3])}):")
+                else:
+                    lines.append(f"{ind}{iv} = 0")
+                    lines.append(f"{ind}while {iv} < {rng.choice([1, 2, 3])}:")
+                    lines.append(f"{ind}    {iv} += 1")
+                inner = locs + [iv]
+                lines.append(f"{ind}    {nm} {rng.choice(['+=', '-=', '*=', '='])} {expr(1, inner)}")
+                if rng.random() < 0.4:
+                    lines.append(f"{ind}    if {cond(0, inner)}:")
+                    lines.append(f"{ind}        {rng.choice(['break', 'continue', nm + ' += 1'])}")
             elif d > 0:
                 lines.append(f"{ind}if {cond(d, locs)}:")
                 lines += block(d - 1, locs, ind + "    ", rng.random() < 0.5) or [f"{ind}    pass"]
@@ -264,7 +301,7 @@ def gen_programs(seed: int, count: int) -> list[Prog]:
         np_ = rng.randint(1, 3)
         vs = ["a", "b", "c"][:np_]
         body = block(2, vs, "    ", True)
-        name = f"g{i}"
+        name = f"{'gl' if loops else 'g'}{i}"
         src = f"def {name}({', '.join(v + ': int' for v in vs)}) -> int:\n" + "\n".join(body) + "\n"
         out.append(Prog(name, src, [(v, "int") for v in vs], "int", "generated"))
     return out
